@@ -1846,7 +1846,9 @@ int hostlist_delete(hostlist_t hl, const char *hosts)
         seterrno_ret(EINVAL, 0);
 
     while ((hostname = hostlist_pop(hltmp)) != NULL) {
-        n += hostlist_delete_host(hl, hostname);
+        /* the list may name a host more than once: remove every occurrence */
+        while (hostlist_delete_host(hl, hostname))
+            n++;
         free(hostname);
     }
     hostlist_destroy(hltmp);
